@@ -31,9 +31,11 @@ CONFIG = dict(
                   "enter the model as inputs computed by the harness (harness/fmt_gen.py), not as modelled behaviour"],
     assumptions=["Frame.clsname/modname/filename/funcname are taken from the frame as stackscope reports them (not part of formatting)",
                  "line numbers are non-negative"],
-    unproved_legs=["read-back is proved on structured lines (marker chain x body); lexing marker chains out of the rendered characters "
-                   "is not modelled: the strings are tied to the structured lines by C18_string_level (rendering), and the markers that "
-                   "can follow one another are shown pairwise distinct as strings (C18_markers_wf) but no string-level parser is proved"],
+    unproved_legs=["no full string-level parser is proved: C18_unicode_lex_unique shows that in unicode mode a rendered line "
+                   "determines its (marker chain, body) when the body does not start with a marker string and error lines are "
+                   "not empty (traceback lines such as '  File ...' do start with two blanks, so this hypothesis is real); the two "
+                   "ambiguities found are theorems: C18_lex_blank_refuted (unicode, line level) and C18_ascii_ambiguous_refuted "
+                   "(ascii, whole text: start_frame = start_leaf = '+ ')"],
     NOTES=("skeleton identifies inner_stack=None with an empty inner stack and treats child task stacks and child contexts both as "
            "'node = own line + frames/leaf/error + children' (the prefixes do not distinguish them; the texts do). Blank lines are "
            "decoration: a hidden child context between two populated child stacks leaves two blank lines, read_back skips any number."),
